@@ -1,4 +1,5 @@
 import Tumfl.Spec.Show
+import Tumfl.Model.Lexer
 /-!
 # Line-protocol driver
 
@@ -59,6 +60,22 @@ def showTokAt (t : Spec.Tok) (lc : Nat × Nat) : String :=
 def showToks (src : List Char) (ts : List Spec.Tok) : String :=
   Spec.sp (List.zipWith showTokAt ts (positions src (ts.map (·.off))))
 
+def optHex (o : Option (List Char)) : String :=
+  match o with | some cs => "s" ++ hexOfText cs | none => "-"
+
+def showMTok (t : Model.Token) : String :=
+  let v := match t.value with
+    | .str cs => "S" ++ hexOfText cs
+    | .num n => s!"N{n.isHex}:{optHex n.ip}:{optHex n.fp}:{optHex n.ex}:{optHex n.fo}"
+  s!"{t.type.name}|{v}|{t.line}|{t.column}|{",".intercalate (t.comment.map fun c => "c" ++ hexOfText c)}"
+
+def showPyErr : Model.PyErr → String
+  | .lexer _ l c => s!"lexer {l} {c}"
+  | .parser _ t hs => s!"parser {t.type.name} {t.line} {t.column} [{",".intercalate (hs.map fun h => s!"{h.«where»}/{h.what}@{h.token.line}:{h.token.column}")}]"
+  | .dependency _ t => s!"dependency {t.line} {t.column}"
+  | .py k site => s!"py {k} {site}"
+  | .fuel => "fuel"
+
 def handle (line : String) : String :=
   match line.splitOn "\t" with
   | ["refparse", h] =>
@@ -107,6 +124,13 @@ def handle (line : String) : String :=
       match Spec.lex src with
       | .ok ts => "ok " ++ showToks src ts
       | .error (.mk m o) => s!"lexerr {o} {m}"
+  | ["mlex", typed, h] =>
+    match decodeText h with
+    | none => "bad-op"
+    | some src =>
+      match Model.lexText { typed := typed == "1" } src with
+      | .ok ts => "ok " ++ Spec.sp (ts.map showMTok)
+      | .error e => "err " ++ showPyErr e
   | ["numval", h] =>
     match decodeText h with
     | none => "bad-op"
